@@ -192,6 +192,39 @@ Fixpoint dispatch (fuel : nat) (st : state) (offset : Z) : list nbatch * dstop :
       end
   end.
 
+(* The same loop over a ReadNextNotifications that ENFORCES a limit the way maxNotificationBatchSize was meant to:
+   at most [limit] batches per call - the first [limit] of the scan, wherever they lie.  (The Go code never
+   increments its counter, so [dispatch] above is the code as it is; this variant is what a correct enforcement
+   of the limit must be equivalent to: Proofs_C17.dispatch_limited_char.  Bounding the scan to a WINDOW OF
+   OFFSETS instead - start .. start+100 - is not: it returns nothing when the next retained batch lies beyond
+   the window, and the loop asks for the same window for ever.) *)
+Definition read_next_limited (limit : nat) (st : state) (start_offset : Z) : result (list nbatch) :=
+  match read_next_notifications st start_offset with
+  | Ok bs => Ok (firstn limit bs)
+  | Err e => Err e
+  end.
+
+(* the enforcement that does NOT work (seeded change r7): scan only the offsets start .. start+window-1 *)
+Definition read_next_window (window : Z) (st : state) (start_offset : Z) : result (list nbatch) :=
+  match read_next_notifications st start_offset with
+  | Ok bs => Ok (filter (fun b => nb_offset b <? start_offset + window) bs)
+  | Err e => Err e
+  end.
+
+Fixpoint dispatch_limited (fuel limit : nat) (st : state) (offset : Z) : list nbatch * dstop :=
+  match fuel with
+  | O => ([], DFuel)
+  | S f =>
+      match read_next_limited limit st (wrap64 (offset + 1)) with
+      | Err EBlocked => ([], DWait offset)
+      | Err e => ([], DErr e)
+      | Ok [] => ([], DSpin offset)
+      | Ok bs =>
+          let '(more, stop) := dispatch_limited f limit st (last_offset bs offset) in
+          (bs ++ more, stop)
+      end
+  end.
+
 (* one whole GetNotifications call against a quiescent DB: what goes down the stream *)
 Definition serve (cfg : config) (st : state) (qc : Z) (start : option Z) : list nbatch * dstop :=
   if negb (st_notif st) then ([], DErr ENotificationsDisabled)      (* "if !lc.termOptions.NotificationsEnabled": before the dummy *)
